@@ -118,7 +118,10 @@ func main() {
 		fmt.Printf("%d programs, %d scenarios\n", len(pl.progs), len(tasks))
 		return
 	}
-	g := &genSet{dir: filepath.Join(*build, "gen"), mode: pl.modes[0].mode, autoInst: pl.modes[0].autoInst, progs: pl.progs}
+	g := &genSet{dir: filepath.Join(*build, "gen"), mode: pl.modes[0].mode, autoInst: pl.modes[0].autoInst, progs: pl.progs, race: *prop == "C12"}
+	if g.race {
+		setRaceEnv(*build)
+	}
 	g.write(*repo, mc.VerifDir())
 	g.runCff(*cffBin, mc.Workers())
 	// every program of a run-time family is well-formed: the tool must accept it
@@ -178,6 +181,7 @@ func main() {
 		mc.ToolError("bad driver results: %v", err)
 	}
 	var tot statsRec
+	racesConfirmed := 0
 	exhaustive := true
 	var capped []string
 	visibles := 0
@@ -214,6 +218,13 @@ func main() {
 		}
 		for vi := range r.Violations {
 			v := &r.Violations[vi]
+			if v.Race {
+				// confirm in a fresh process (the detector reports a pair of stacks once per process)
+				if msg, ok := confirmRace(*build, run[i].Sc, v.Decisions); !ok {
+					mc.ToolError("NONDETERMINISM: a race report for %s [%s] was not reproduced by replaying its schedule in a fresh process: %s", r.Scenario, progKey(p), msg)
+				}
+				racesConfirmed++
+			}
 			scj, _ := json.Marshal(map[string]any{"program": p, "scenario": run[i].Sc})
 			rep.Report(&mc.Replay{Property: v.Prop, Engine: "genmc", Key: progKey(p) + " :: " + strings.TrimPrefix(r.Scenario, p.ID+" "), Message: v.Msg,
 				Scenario: scj, Decisions: v.Decisions, Trace: v.Trace, Visible: v.Visible,
@@ -256,6 +267,8 @@ func main() {
 			"distinct_visible_traces":       visibles,
 			"capped_scenarios":              capped,
 			"known_findings_hit":            rep.KnownHits,
+			"race_detector":                 g.race,
+			"race_reports_confirmed":        racesConfirmed,
 			"rule":                          "every program of the family is rendered to Go, compiled by the cff binary built from the working tree, linked against the rewritten scheduler, and every (program, outcome vector, N) scenario is explored over all interleavings (sleep-set DFS, unbounded); each execution is compared with the reference interpreter of the directive semantics",
 		},
 		Assumptions: []string{
@@ -275,6 +288,56 @@ func main() {
 		fmt.Println("  capped:", c)
 	}
 	os.Exit(rep.ExitCode())
+}
+
+// setRaceEnv makes the driver's worker processes write race reports to
+// per-process log files that the workers watch after every execution.
+func setRaceEnv(build string) {
+	dir := filepath.Join(build, "racelog")
+	os.RemoveAll(dir)
+	os.MkdirAll(dir, 0o755)
+	pfx := filepath.Join(dir, "race")
+	os.Setenv("VERIF_RACE_LOG", pfx)
+	os.Setenv("GORACE", "log_path="+pfx+" atexit_sleep_ms=0 halt_on_error=0")
+}
+
+// confirmRace replays one schedule in a fresh driver process and reports
+// whether the race detector fires again.
+func confirmRace(build string, sc genrt.Scenario, decisions []int) (string, bool) {
+	t := []genrt.Task{{Sc: sc, Replay: decisions}}
+	if t[0].Replay == nil {
+		t[0].Replay = []int{}
+	}
+	tb, _ := json.Marshal(t)
+	tf, rf := filepath.Join(build, "race-tasks.json"), filepath.Join(build, "race-results.json")
+	os.WriteFile(tf, tb, 0o644)
+	last := ""
+	// The detector does not report every racing pair on every run of the
+	// same schedule (measured: 30-60% per run for some pairs once the
+	// channel annotations are on; its bounded shadow/trace state is the
+	// documented reason), so the replay is attempted several times, each in
+	// a fresh process. A report is never produced for ordered accesses, so
+	// one reproduction confirms the finding.
+	for attempt := 0; attempt < 16; attempt++ {
+		os.Remove(rf)
+		so, se, code := runCmd(build, filepath.Join(build, "bin", "driver"), "-tasks", tf, "-out", rf)
+		if code != 0 {
+			return fmt.Sprintf("driver failed: %s %s", truncate(so, 300), truncate(se, 300)), false
+		}
+		rb, _ := os.ReadFile(rf)
+		var results []resultRec
+		json.Unmarshal(rb, &results)
+		if len(results) != 1 {
+			return "no result", false
+		}
+		for _, v := range results[0].Violations {
+			if v.Prop == "C12" {
+				return "", true
+			}
+		}
+		last = "no race report in 16 fresh replays; last results: " + truncate(string(rb), 400)
+	}
+	return last, false
 }
 
 func compact(d []int) string {
@@ -327,7 +390,10 @@ func replayMain(path, build, overlay, repo, cffBin string) {
 	if err := json.Unmarshal(rp.Scenario, &in); err != nil || in.Program == nil {
 		mc.ToolError("replay: this artefact has no schedule to replay (static finding): %s", rp.Message)
 	}
-	g := &genSet{dir: filepath.Join(build, "gen"), mode: "base", progs: []*pg.Program{in.Program}}
+	g := &genSet{dir: filepath.Join(build, "gen"), mode: "base", progs: []*pg.Program{in.Program}, race: rp.Property == "C12"}
+	if g.race {
+		setRaceEnv(build)
+	}
 	g.write(repo, mc.VerifDir())
 	g.runCff(cffBin, 1)
 	ov, err := g.mapRangeOverlay(overlay, build)
